@@ -49,17 +49,40 @@ structure QuoteLaws (D : RepData ops) (vecElems : H → VCell → Option (List V
   srx_store : ∀ h S S', StorePrefix S S' → D.SRx h S → D.SRx h S'
 
 mutual
-/-- the datum `d` as `put_cell` lays it out, reachable from the machine value `v` -/
-inductive DatumAt (D : RepData ops) (vecElems : H → VCell → Option (List VCell)) (h : H) : VCell → Datum → Prop
-  | atom {v d w} : atomVal d = some w → (∀ S, D.VR h S v w) → DatumAt D vecElems h v d
-  | pair {v a d pa pd} : ops.deref h v = .pair pa pd → DatumAt D vecElems h (.ptr pa) a →
-      DatumAt D vecElems h (.ptr pd) d → DatumAt D vecElems h v (.pair a d)
-  | vec {v e ps} : vecElems h v = some ps → DatumsAt D vecElems h ps e → DatumAt D vecElems h v (.vec e)
+/-- the datum `d` as `put_cell` lays it out, reachable from the machine value `v` (atoms are represented
+    relative to the store `S`) -/
+inductive DatumAt (D : RepData ops) (vecElems : H → VCell → Option (List VCell)) (h : H) (S : Array Cell) :
+    VCell → Datum → Prop
+  | atom {v d w} : atomVal d = some w → D.VR h S v w → DatumAt D vecElems h S v d
+  | pair {v a d pa pd} : ops.deref h v = .pair pa pd → DatumAt D vecElems h S (.ptr pa) a →
+      DatumAt D vecElems h S (.ptr pd) d → DatumAt D vecElems h S v (.pair a d)
+  | vec {v e ps} : vecElems h v = some ps → DatumsAt D vecElems h S ps e → DatumAt D vecElems h S v (.vec e)
 /-- the elements of a vector datum (a pair/nil spine) -/
-inductive DatumsAt (D : RepData ops) (vecElems : H → VCell → Option (List VCell)) (h : H) : List VCell → Datum → Prop
-  | nil {t} : (∀ a d, t ≠ .pair a d) → DatumsAt D vecElems h [] t
-  | cons {p ps a d} : DatumAt D vecElems h p a → DatumsAt D vecElems h ps d →
-      DatumsAt D vecElems h (p :: ps) (.pair a d)
+inductive DatumsAt (D : RepData ops) (vecElems : H → VCell → Option (List VCell)) (h : H) (S : Array Cell) :
+    List VCell → Datum → Prop
+  | nil {t} : (∀ a d, t ≠ .pair a d) → DatumsAt D vecElems h S [] t
+  | cons {p ps a d} : DatumAt D vecElems h S p a → DatumsAt D vecElems h S ps d →
+      DatumsAt D vecElems h S (p :: ps) (.pair a d)
+end
+
+mutual
+/-- a laid-out datum is still there in a later heap and store, if those keep the representations of atoms and
+    what `heap.get` / the vector payloads show -/
+theorem DatumAt.transport {D : RepData ops} {vecElems : H → VCell → Option (List VCell)} {h h' : H}
+    {S S' : Array Cell} (fv : ∀ v w, D.VR h S v w → D.VR h' S' v w)
+    (fd : ∀ v a d, ops.deref h v = .pair a d → ops.deref h' v = .pair a d)
+    (fe : ∀ v ps, vecElems h v = some ps → vecElems h' v = some ps) :
+    ∀ {v d}, DatumAt D vecElems h S v d → DatumAt D vecElems h' S' v d
+  | _, _, .atom ha hv => .atom ha (fv _ _ hv)
+  | _, _, .pair hd h1 h2 => .pair (fd _ _ _ hd) (DatumAt.transport fv fd fe h1) (DatumAt.transport fv fd fe h2)
+  | _, _, .vec he hs => .vec (fe _ _ he) (DatumsAt.transport fv fd fe hs)
+theorem DatumsAt.transport {D : RepData ops} {vecElems : H → VCell → Option (List VCell)} {h h' : H}
+    {S S' : Array Cell} (fv : ∀ v w, D.VR h S v w → D.VR h' S' v w)
+    (fd : ∀ v a d, ops.deref h v = .pair a d → ops.deref h' v = .pair a d)
+    (fe : ∀ v ps, vecElems h v = some ps → vecElems h' v = some ps) :
+    ∀ {ps d}, DatumsAt D vecElems h S ps d → DatumsAt D vecElems h' S' ps d
+  | _, _, .nil hn => .nil hn
+  | _, _, .cons h1 h2 => .cons (DatumAt.transport fv fd fe h1) (DatumsAt.transport fv fd fe h2)
 end
 
 /-- what quoting leaves: the store grew, nothing else changed -/
@@ -86,25 +109,26 @@ theorem All2.mono' {α β : Type} {R R' : α → β → Prop} {l : List α} {l' 
 variable {D : RepData ops} {vecElems : H → VCell → Option (List VCell)}
 
 /-- both statements at once, by induction on the datum -/
-theorem quote_rep_both (Q : QuoteLaws D vecElems) (h : H) (d : Datum) :
-    (∀ v σ w σ', DatumAt D vecElems h v d → quoteVal d σ = .ok w σ' →
+theorem quote_rep_both (Q : QuoteLaws D vecElems) (h : H) (S0 : Array Cell) (d : Datum) :
+    (∀ v (σ : SSt) w σ', StorePrefix S0 σ.store → DatumAt D vecElems h S0 v d → quoteVal d σ = .ok w σ' →
       D.VR h σ'.store v w ∧ QuoteEffect σ σ') ∧
-    (∀ ps σ xs σ', DatumsAt D vecElems h ps d → quoteElems d σ = .ok xs σ' →
+    (∀ ps (σ : SSt) xs σ', StorePrefix S0 σ.store → DatumsAt D vecElems h S0 ps d → quoteElems d σ = .ok xs σ' →
       All2 (D.VR h σ'.store) ps xs ∧ QuoteEffect σ σ') := by
   have atomCase : ∀ d, (∀ a b, d ≠ .pair a b) → (∀ e, d ≠ .vec e) →
-      ∀ v σ w σ', DatumAt D vecElems h v d → quoteVal d σ = .ok w σ' →
+      ∀ v (σ : SSt) w σ', StorePrefix S0 σ.store → DatumAt D vecElems h S0 v d → quoteVal d σ = .ok w σ' →
         D.VR h σ'.store v w ∧ QuoteEffect σ σ' := by
-    intro d hnp hnv v σ w σ' hd hq
+    intro d hnp hnv v σ w σ' hpre hd hq
     cases hd with
     | atom ha hv =>
       obtain ⟨ha', rfl⟩ := quoteVal_atom (.inl (by rw [ha]; rfl)) hq
       rw [ha] at ha'; cases ha'
-      exact ⟨hv _, QuoteEffect.refl _⟩
+      exact ⟨Q.vr_store _ _ _ _ _ hpre hv, QuoteEffect.refl _⟩
     | pair _ _ _ => exact absurd rfl (hnp _ _)
     | vec _ _ => exact absurd rfl (hnv _)
-  have elemsNil : ∀ d, (∀ a b, d ≠ .pair a b) → ∀ ps σ xs σ', DatumsAt D vecElems h ps d →
+  have elemsNil : ∀ d, (∀ a b, d ≠ .pair a b) → ∀ ps (σ : SSt) xs σ', StorePrefix S0 σ.store →
+      DatumsAt D vecElems h S0 ps d →
       quoteElems d σ = .ok xs σ' → All2 (D.VR h σ'.store) ps xs ∧ QuoteEffect σ σ' := by
-    intro d hnp ps σ xs σ' hd hq
+    intro d hnp ps σ xs σ' _ hd hq
     cases hd with
     | nil _ =>
       have : quoteElems d σ = (pure [] : Spec.Eval.M _) σ := by
@@ -116,7 +140,7 @@ theorem quote_rep_both (Q : QuoteLaws D vecElems) (h : H) (d : Datum) :
   induction d with
   | pair a d iha ihd =>
     refine ⟨?_, ?_⟩
-    · intro v σ w σ' hd hq
+    · intro v σ w σ' hpre hd hq
       cases hd with
       | atom ha _ => simp [atomVal] at ha
       | pair hder h1 h2 =>
@@ -126,14 +150,14 @@ theorem quote_rep_both (Q : QuoteLaws D vecElems) (h : H) (d : Datum) :
         change (Spec.Eval.allocCell (.pair a' d') >>= fun l => pure (Val.pair l)) σ2 = _ at hq
         obtain ⟨l, σ3, q3, hq⟩ := bind_ok_inv hq
         obtain ⟨rfl, rfl⟩ := pure_ok_inv hq
-        obtain ⟨r1, e1⟩ := iha.1 _ _ _ _ h1 q1
-        obtain ⟨r2, e2⟩ := ihd.1 _ _ _ _ h2 q2
+        obtain ⟨r1, e1⟩ := iha.1 _ _ _ _ hpre h1 q1
+        obtain ⟨r2, e2⟩ := ihd.1 _ _ _ _ (hpre.trans e1.store) h2 q2
         obtain ⟨rfl, hst, e3⟩ := allocCell_ok_inv q3
         refine ⟨?_, (e1.trans e2).trans e3⟩
         refine Q.vr_pair h _ v _ a' d' _ _ (by rw [hst]; simp) hder ?_ ?_
         · exact Q.vr_store _ _ _ _ _ (e2.store.trans e3.store) r1
         · exact Q.vr_store _ _ _ _ _ e3.store r2
-    · intro ps σ xs σ' hd hq
+    · intro ps σ xs σ' hpre hd hq
       cases hd with
       | nil hn => exact absurd rfl (hn _ _)
       | cons h1 h2 =>
@@ -141,12 +165,12 @@ theorem quote_rep_both (Q : QuoteLaws D vecElems) (h : H) (d : Datum) :
         obtain ⟨a', σ1, q1, hq⟩ := bind_ok_inv hq
         obtain ⟨d', σ2, q2, hq⟩ := bind_ok_inv hq
         obtain ⟨rfl, rfl⟩ := pure_ok_inv hq
-        obtain ⟨r1, e1⟩ := iha.1 _ _ _ _ h1 q1
-        obtain ⟨r2, e2⟩ := ihd.2 _ _ _ _ h2 q2
+        obtain ⟨r1, e1⟩ := iha.1 _ _ _ _ hpre h1 q1
+        obtain ⟨r2, e2⟩ := ihd.2 _ _ _ _ (hpre.trans e1.store) h2 q2
         exact ⟨.cons (Q.vr_store _ _ _ _ _ e2.store r1) r2, e1.trans e2⟩
   | vec e ihe =>
     refine ⟨?_, elemsNil _ (by intro a b x; cases x)⟩
-    intro v σ w σ' hd hq
+    intro v σ w σ' hpre hd hq
     cases hd with
     | atom ha _ => simp [atomVal] at ha
     | vec hve hes =>
@@ -155,7 +179,7 @@ theorem quote_rep_both (Q : QuoteLaws D vecElems) (h : H) (d : Datum) :
       change (Spec.Eval.allocCell (.vec xs) >>= fun l => pure (Val.vec l)) σ1 = _ at hq
       obtain ⟨l, σ2, q2, hq⟩ := bind_ok_inv hq
       obtain ⟨rfl, rfl⟩ := pure_ok_inv hq
-      obtain ⟨r1, e1⟩ := ihe.2 _ _ _ _ hes q1
+      obtain ⟨r1, e1⟩ := ihe.2 _ _ _ _ hpre hes q1
       obtain ⟨rfl, hst, e2⟩ := allocCell_ok_inv q2
       refine ⟨Q.vr_vec h _ v _ xs _ (by rw [hst]; simp) hve ?_, e1.trans e2⟩
       exact All2.mono (fun a b x => Q.vr_store _ _ _ _ _ e2.store x) r1
@@ -174,9 +198,9 @@ theorem quote_rep_both (Q : QuoteLaws D vecElems) (h : H) (d : Datum) :
 /-- **Quoted constants.** If the datum `d` sits in the heap at `v`, then `v` represents the value
     `quoteVal d` returns, in the store it leaves; that store extends the old one, nothing else changed. -/
 theorem quote_rep (Q : QuoteLaws D vecElems) {h : H} {d : Datum} {v : VCell} {σ σ' : SSt} {w : Val}
-    (hd : DatumAt D vecElems h v d) (hq : quoteVal d σ = .ok w σ') :
+    (hd : DatumAt D vecElems h σ.store v d) (hq : quoteVal d σ = .ok w σ') :
     D.VR h σ'.store v w ∧ QuoteEffect σ σ' :=
-  (quote_rep_both Q h d).1 v σ w σ' hd hq
+  (quote_rep_both Q h σ.store d).1 v σ w σ' (StorePrefix.refl _) hd hq
 
 /-- the represented state after quoting -/
 theorem SR.quoteEffect (Q : QuoteLaws D vecElems) {h : H} {σ σ' : SSt} (hsr : SR D h σ) (e : QuoteEffect σ σ') :
@@ -191,7 +215,7 @@ theorem run_quote (Q : QuoteLaws D vecElems) {s : MSt H} {σ σ' : SSt} {w : Val
     (h0 : ops.fetch s.heap s.ipL s.ipO = some (.opcode .movImm))
     (h1 : ops.fetch s.heap s.ipL (s.ipO + 1) = some v) (hv : ∀ o, v ≠ .opcode o)
     (h2 : ops.fetch s.heap s.ipL (s.ipO + 2) = some .acc)
-    (hd : DatumAt D vecElems s.heap v d) (hq : quoteVal d σ = .ok w σ')
+    (hd : DatumAt D vecElems s.heap σ.store v d) (hq : quoteVal d σ = .ok w σ')
     (hsr : SR D s.heap σ) (hw : SWF s.stack) :
     ∃ s', ExprRun D s 3 σ σ' w s' := by
   obtain ⟨hvr, eff⟩ := quote_rep Q hd hq
@@ -206,7 +230,7 @@ theorem run_quote_form (Q : QuoteLaws D vecElems) {s : MSt H} {σ σ' : SSt} {w 
     (h0 : ops.fetch s.heap s.ipL s.ipO = some (.opcode .movImm))
     (h1 : ops.fetch s.heap s.ipL (s.ipO + 1) = some v) (hv : ∀ o, v ≠ .opcode o)
     (h2 : ops.fetch s.heap s.ipL (s.ipO + 2) = some .acc)
-    (hd : DatumAt D vecElems s.heap v d)
+    (hd : DatumAt D vecElems s.heap σ.store v d)
     (hq : evalStep r (.pair (.sym Spec.Eval.k_quote) (.pair d rest)) ρ σ = .ok w σ')
     (hsr : SR D s.heap σ) (hw : SWF s.stack) :
     ∃ s', ExprRun D s 3 σ σ' w s' := by
